@@ -222,6 +222,19 @@ def gen_case(rng, idx):
             elif x < 0.5:
                 ops.append({'op': 'forward', 'name': name, 'method': 'PATCH', 'path': rng.choice(['/webhooks', '/reverse']),
                             'body': {'enabled': rng.random() < 0.5, 'host': rng.choice(['h', 'a"b']), 'port': 80, 'path': '/x'}})
+            elif x < 0.62:
+                # a PATCH of which one attribute is refused after others were applied: listening together with polling,
+                # or listening asked from a device without listen support / that does not answer
+                if rng.random() < 0.5:
+                    ops.append({'op': 'patch_slave', 'name': name, 'attrs': {'enabled': rng.random() < 0.5}})
+                attrs = rng.choice([
+                    {'enabled': True, 'poll_interval': 30, 'listen_enabled': True},
+                    {'enabled': False, 'poll_interval': 30, 'listen_enabled': True},
+                    {'enabled': True, 'listen_enabled': True},
+                    {'poll_interval': 0, 'listen_enabled': True},
+                    {'enabled': True, 'poll_interval': 0, 'listen_enabled': True},
+                ])
+                ops.append({'op': 'patch_slave', 'name': name, 'attrs': dict(attrs)})
             elif x < 0.8:
                 attrs = {}
                 for n in rng.sample(['enabled', 'poll_interval', 'listen_enabled'], rng.choice([1, 1, 2])):
@@ -367,8 +380,21 @@ def oracle(case, res):
     def kind(pid):
         return 'slave-port' if '.' in pid else ('virtual-port' if pid.startswith('v') else 'static-port')
 
+    # slaves whose in-memory state was changed by a PATCH that was refused afterwards and never saved: their ports (present or
+    # absent with `enabled`) are reported once, at the slave
+    unsaved_slaves = set()
+    for s_b in before['devices']:
+        s_l = next((x for x in loaded['devices'] if x['name'] == s_b['name']), None)
+        if s_l is not None and any(
+                o['op'] == 'patch_slave' and o['name'] == s_b['name'] and lg[0] >= 400 and lg[0] != 404
+                and any(f in s_b and same_value(o['attrs'][f], s_b[f]) and not same_value(s_b[f], s_l.get(f)) for f in o['attrs'])
+                for o, lg in zip(case['ops'], res['log'])):
+            unsaved_slaves.add(s_b['name'])
+
     for pid, bp in sorted(b_ports.items()):
         owner = pid.split('.')[0] if '.' in pid else None
+        if owner in unsaved_slaves:
+            continue
         if owner in polled:
             target, when = a_ports.get(pid), 'after the restart (device polled again)'
         else:
@@ -437,6 +463,8 @@ def oracle(case, res):
             add(kind(pid), 'driver-writes', 'port %s is not persisted (or has no value) but its driver was written during loading: %s' % (
                 pid, json.dumps(writes)), {'writes': writes})
     for pid in sorted(set(l_ports) - set(b_ports)):
+        if pid.split('.')[0] in unsaved_slaves:
+            continue
         add(kind(pid), '<port>', 'port %s does not exist before the restart and exists after it' % pid, {'after': port_view(l_ports[pid])})
 
     d = diff({k: v for k, v in before['device'].items() if k not in VOLATILE_DEVICE},
@@ -456,6 +484,13 @@ def oracle(case, res):
             continue
         d = diff(slave_view(b_sl[name]), slave_view(l_sl[name]))
         for f, (x, y) in sorted(d.items()):
+            failed = [o for o, lg in zip(case['ops'], res['log']) if o['op'] == 'patch_slave' and o['name'] == name
+                      and lg[0] >= 400 and lg[0] != 404 and f in o['attrs'] and same_value(o['attrs'][f], x)]
+            if failed:
+                add('slave', '<partially applied PATCH>', 'slave %s: %s = %s was applied by a PATCH that was answered with an error '
+                    '(%s) but never saved: %s after the restart' % (name, f, json.dumps(x), describe(failed[-1]), json.dumps(y)),
+                    {'attribute': f, 'before': x, 'after': y}, cause='error-answer-skips-save')
+                continue
             add('slave', f, 'slave %s: %s is %s before the restart and %s after it' % (name, f, json.dumps(x), json.dumps(y)), {'before': x, 'after': y})
         d = diff(before['internals']['slave_internals'].get(name, {}), loaded['internals']['slave_internals'].get(name, {}))
         for f, (x, y) in sorted(d.items()):
